@@ -53,7 +53,9 @@ type Spec struct {
 	Outside     []string          `json:"outside"`
 	Assumptions []string          `json:"assumptions"`
 	MapPermMax  int               `json:"map_perm_max"`
+	FairLoops   []string          `json:"fair_loops"` // functions whose spin loops are cut by a fairness assumption
 	NoReplay    bool              `json:"no_replay"`
+	ScheduleReplay map[string]bool `json:"schedule_replay"` // entries whose counterexamples depend on a schedule
 	Solver      string            `json:"solver"` // z3 (4.8.12, default) | z3new (5.1.0) | cvc5
 	ExtraFiles  map[string]string `json:"extra_files"` // overlay path relative to /repo -> file under harness dir
 }
@@ -251,9 +253,13 @@ func cmdRun(args []string) int {
 		timeoutMs: 20000, params: ts.Params,
 		allowInit: map[string]bool{}, denyPkgs: map[string]bool{},
 		mapPermMax: spec.MapPermMax, verbose: *verbose, maxPaths: ts.MaxPaths,
+		fairLoops: map[string]bool{},
 	}
 	if eng.params == nil {
 		eng.params = map[string]int64{}
+	}
+	for _, f := range spec.FairLoops {
+		eng.fairLoops[f] = true
 	}
 	if ts.Unwind > 0 {
 		eng.unwind = ts.Unwind
@@ -424,12 +430,20 @@ func cmdRun(args []string) int {
 			continue
 		}
 		path := writeReplay(spec, v)
-		if spec.NoReplay || v.Kind == "deadlock" || len(v.Choices) > 0 && hasSchedChoices(spec) {
-			// schedule-dependent counterexamples are confirmed by concrete re-execution in the interpreter
-			fmt.Printf("VIOLATION property=%s replay=%s\n", spec.Property, path)
-			fmt.Printf("  key=%s detail=%s\n", v.Key, v.Detail)
-			nviol++
-			exit = 1
+		if spec.NoReplay || spec.ScheduleReplay[v.Harness] {
+			// Schedule-dependent counterexamples cannot be forced onto the native Go
+			// scheduler; they are confirmed by re-executing the real SSA concretely inside
+			// the executor with the model's inputs and the recorded schedule.
+			fn, _ := findEntry(prog, pkg, v.Harness)
+			confirmed, detail := eng.ReplayConcrete(fn, v)
+			if confirmed {
+				fmt.Printf("VIOLATION property=%s replay=%s\n", spec.Property, path)
+				fmt.Printf("  key=%s detail=%s (confirmed by concrete re-execution of the recorded schedule)\n", v.Key, v.Detail)
+				nviol++
+				exit = 1
+			} else {
+				problems = append(problems, fmt.Sprintf("replay-mismatch for %s (concrete re-execution: %s)", k, detail))
+			}
 			continue
 		}
 		ok, out := nativeReplay(spec, hdir, path)
